@@ -26,10 +26,14 @@
 (* Requirement on printing (RoundTripOK): reading the printed text with    *)
 (* this grammar gives the same names in the same order, the same TS        *)
 (* presence, and every coefficient within half a unit of the last printed  *)
-(* place (10^-d / 2 for format '.<d>f') of the original - no rounding mode *)
-(* is imposed.  The printer below is the implementation-shaped algorithm   *)
-(* (omit ~1, integers without point, else '.<d>f'); variant "trunc" is     *)
-(* int() as in the pinned source, "round" is int(round()).                 *)
+(* place (10^-d / 2 for format '.<d>f'; for '.<p>g' the place the p-th      *)
+(* significant digit of the original reaches; '' = exact) of the original  *)
+(* - no rounding mode is imposed.  The printer below is the                *)
+(* implementation-shaped algorithm (omit ~1, integers without point, else  *)
+(* '.<d>f'); variant "trunc" is int() as in the pinned source, "round" is  *)
+(* int(round()).  Coefficients in the grey zone of numpy.isclose (neither  *)
+(* within 10^-9 of an integer nor further than 10^-8 + 10^-5 n from it)    *)
+(* are outside the reading taken here: the printer drops their decimals.   *)
 (***************************************************************************)
 EXTENDS Text, FiniteSets
 
@@ -172,13 +176,36 @@ PrintStates(variant, r, d, space) ==
           PrintSide(variant, r.pr, d, space)>>
 
 \* ---------------------------------------------------------------- requirements
-SameSide(orig, got, d) == /\ Len(got) = Len(orig)
-                          /\ \A i \in 1..Len(orig) : /\ got[i].nm = orig[i].nm
-                                                     /\ WithinHalfUnit(got[i].co, orig[i].co, d)
+\* A printing precision is  [k |-> "f", n |-> d]      d decimals            ('.<d>f', 'f' = '.6f')
+\*                          [k |-> "g", n |-> p]      p significant digits  ('.<p>g', 'g' = '.6g')
+\*                          [k |-> "exact", n |-> 0]  shortest round-tripping text ('' = repr)
+NDigits(n) == IF n < 10 THEN 1 ELSE IF n < 100 THEN 2 ELSE IF n < 1000 THEN 3 ELSE IF n < 10000 THEN 4
+              ELSE IF n < 100000 THEN 5 ELSE IF n < 1000000 THEN 6 ELSE IF n < 10000000 THEN 7
+              ELSE IF n < 100000000 THEN 8 ELSE 9
+Cap8(d) == IF d > 8 THEN 8 ELSE d
+\* decimals that p significant digits of c reach (c >= 10^-8)
+DecimalsG(c, p) == IF c[1] >= 1 THEN (IF p > NDigits(c[1]) THEN p - NDigits(c[1]) ELSE 0)
+                   ELSE IF c[2] > 0 THEN Cap8(p + (9 - NDigits(c[2]))) ELSE 8
+DecimalsFor(prec, c) == IF prec.k = "f" THEN prec.n ELSE DecimalsG(c, prec.n)
+WithinPrec(got, c, prec) == IF prec.k = "exact" THEN got = c ELSE WithinHalfUnit(got, c, DecimalsFor(prec, c))
+PrecF(d) == [k |-> "f", n |-> d]
+\* the format strings of the quantifier:  ''  'f'  'g'  '.<n>f'  '.<n>g'   (n one digit)
+FmtSupported(fmt) == \/ fmt = <<>> \/ fmt = <<102>> \/ fmt = <<103>>
+                     \/ Len(fmt) = 3 /\ fmt[1] = 46 /\ IsDigitC(fmt[2]) /\ fmt[3] \in {102, 103}
+                        /\ (fmt[3] = 102 => fmt[2] - 48 <= 8) /\ (fmt[3] = 103 => fmt[2] - 48 >= 1)
+FmtPrec(fmt) == IF fmt = <<>> THEN [k |-> "exact", n |-> 0]
+                ELSE IF fmt = <<102>> THEN [k |-> "f", n |-> 6]
+                ELSE IF fmt = <<103>> THEN [k |-> "g", n |-> 6]
+                ELSE [k |-> IF fmt[3] = 102 THEN "f" ELSE "g", n |-> fmt[2] - 48]
+SameSideP(orig, got, prec) == /\ Len(got) = Len(orig)
+                              /\ \A i \in 1..Len(orig) : /\ got[i].nm = orig[i].nm
+                                                         /\ WithinPrec(got[i].co, orig[i].co, prec)
 \* p is what a reader of the printed text obtained
-RoundTripOK(r, d, p) == /\ p.hasTS = (Len(r.ts) > 0)
-                        /\ SameSide(r.re, p.re, d) /\ SameSide(r.pr, p.pr, d)
-                        /\ (p.hasTS => SameSide(r.ts, p.ts, d))
+RoundTripP(r, prec, p) == /\ p.hasTS = (Len(r.ts) > 0)
+                          /\ SameSideP(r.re, p.re, prec) /\ SameSideP(r.pr, p.pr, prec)
+                          /\ (p.hasTS => SameSideP(r.ts, p.ts, prec))
+SameSide(orig, got, d) == SameSideP(orig, got, PrecF(d))
+RoundTripOK(r, d, p) == RoundTripP(r, PrecF(d), p)
 \* two readings of the same text agree: names, order, coefficients (exactly when nothing was
 \* merged, to 10^-12 when a float sum is compared with the exact decimal sum)
 SideAgrees(spec, got) == /\ Len(got) = Len(spec)
